@@ -229,6 +229,20 @@ def _category_task(cats):
                     continue
                 if s.GetUnit() != u or s.GetCategory() != c or s.GetValue() != want:
                     part.violation(sig + ":Scalar(c, unit=%r) is not the default amount" % u, {"object": repr(s), "want": want})
+                # ... and the category-only forms still build the default afterwards (order of requests)
+                part.count("evaluations")
+                try:
+                    s0, f0 = Scalar(c), FractionScalar(c)
+                    ok = s0 == Scalar(c, dv, du) and s0.GetUnit() == du and s0.GetValue() == dv and float(f0.GetValue()) == dv and f0.GetUnit() == du and Scalar(c, unit=du).GetValue() == dv
+                except Exception as e:
+                    part.violation(sig + ":category-only form raised after Scalar(c, unit=%r)" % u, {"error": repr(e)})
+                    continue
+                if not ok:
+                    part.violation(
+                        sig + ":category-only form differs after Scalar(c, unit=%r)" % u,
+                        {"Scalar(c)": repr(s0), "FractionScalar(c)": repr(f0), "default": [dv, du]},
+                        "from mc import worlds\nfrom barril.units import *\nwith worlds.world('posc') as db:\n    Scalar(%r, unit=%r)\n    s = Scalar(%r)\n    print(s)\n    assert (s.GetValue(), s.GetUnit()) == (%r, %r)\n" % (c, u, c, dv, du),
+                    )
             part.add("nontrivial", c)
     return part
 
